@@ -487,3 +487,39 @@ pub fn replace_bytes(hay: &[u8], from: &[u8], to: &[u8]) -> Vec<u8> {
 pub fn wr(mut w: impl Write, s: &str) {
     let _ = w.write_all(s.as_bytes());
 }
+
+/// Run a prepared command with piped stdout and a hard deadline; None on time-out or spawn failure.
+pub fn output_with_timeout(cmd: &mut Command, timeout_ms: u64) -> Option<(Status, Vec<u8>)> {
+    cmd.stdin(Stdio::null());
+    cmd.stdout(Stdio::piped());
+    cmd.stderr(Stdio::null());
+    unsafe {
+        cmd.pre_exec(|| {
+            libc::setpgid(0, 0);
+            Ok(())
+        });
+    }
+    let mut child = cmd.spawn().ok()?;
+    let pid = child.id() as i32;
+    let flag = Arc::new(AtomicBool::new(false));
+    watch_table()
+        .lock()
+        .unwrap()
+        .insert(pid, Watched { deadline: Instant::now() + Duration::from_millis(timeout_ms), flag: flag.clone() });
+    let mut out = Vec::new();
+    if let Some(mut so) = child.stdout.take() {
+        let _ = so.read_to_end(&mut out);
+    }
+    let st = child.wait();
+    watch_table().lock().unwrap().remove(&pid);
+    if flag.load(Ordering::SeqCst) {
+        return None;
+    }
+    let st = st.ok()?;
+    let status = if let Some(c) = st.code() {
+        Status::Exit(c)
+    } else {
+        Status::Signal(st.signal().unwrap_or(0))
+    };
+    Some((status, out))
+}
